@@ -7,7 +7,7 @@ S4NOTE = "Schedules are sampled by the Go runtime on up to 16 cores (GOMAXPROCS 
 META = {
     "C01": m("Model-based property testing: rapid-generated operation scripts over all 12 node layouts run on one goroutine (inline executor, manual clock); every return value and the full key space are compared with a map-with-deadlines reference model after every step; automatic removals are reconciled through the deletion events. Held on all generated cases; no absence claim.",
              "DESIGN.md §5, §6 C01", S1NOTE, "stateful model-based property testing (rapid) against a reference map-with-deadlines model"),
-    "C02": m("Recorded concurrent histories of generated programs (2-8 goroutines, hot keys, evictions, table growth/shrink) are checked for per-key linearizability by porcupine against a register model with load tokens; compute callbacks are checked to run once. One listed known finding is recognised by re-checking with exactly its exemption.",
+    "C02": m("Recorded concurrent histories of generated programs (2-8 goroutines, hot keys, evictions, table growth/shrink) are checked for per-key linearizability by porcupine against a register model with load tokens; compute callbacks are checked to run once.",
              "DESIGN.md §6 C02, §7", S4NOTE + " Waiters of another call's load are unconstrained; a porcupine time-out is inconclusive.", "generated concurrent programs + recorded history + linearizability oracle (porcupine)"),
     "C03": m("Model-based scripts restricted to expiring configurations with nanosecond TTLs (expired-but-unswept entries are the norm): every operation on an expired key must behave as on an absent key, iterators and save/load must skip it, and the key space is re-read after every step.",
              "DESIGN.md §6 C03", S1NOTE, "stateful model-based property testing (rapid), visibility facet of the reference model"),
@@ -42,7 +42,7 @@ META = {
 }
 META["C08"] = m("Scripts run inside a testing/synctest bubble: calls start in their own goroutines, loader invocations block on script-owned gates and are released with generated outcomes; synctest.Wait() after every action makes each case deterministic at blocking-point granularity. Oracle: no overlapping invocations per key, every call terminates, errors/panics reach only overlapping callers, no in-flight record left, a later Get loads afresh.",
                 "DESIGN.md §6 C08", "Deterministic only at durable blocking points (channel/WaitGroup); preemption inside non-blocking code is not explored here. Reload panics on the default executor crash the process and are generated only with a harness-owned executor.", "generated schedules in a synctest bubble with gated loaders (rapid)")
-META["C09"] = m("Scripts in a synctest bubble place every kind of explicit write in each window of a load (before registration via the get.afterMiss hook gate, while the loader runs, after it returned via the load.beforeInstall hook gate, after installation) and compare the settled contents with 'the explicit write wins iff it superseded the load'. One listed known finding (write stalled inside its own callback) is recognised and excluded by construction.",
+META["C09"] = m("Scripts in a synctest bubble place every kind of explicit write in each window of a load (before registration via the get.afterMiss hook gate, while the loader runs, after it returned via the load.beforeInstall hook gate, after installation) and compare the settled contents with 'the explicit write wins iff it superseded the load'.",
                 "DESIGN.md §6 C09, §7", "Deterministic at blocking-point granularity; the two hook points are the only places inside the cache where the script parks a goroutine (no lock is held there).", "generated write placements around gated loads in a synctest bubble (rapid)")
 NOT_APPLICABLE = {
     "C14": "check not built yet in this session (planned: hook-point cooperative scheduler over the drain-status protocol, DESIGN.md §6 C14)",
